@@ -83,4 +83,40 @@ def api : String → String × String
   | "p2c" => ("PBES2Count", "SetPBES2Count")
   | _ => ("", "")
 
+/-- number of sites: encoder rows, decoder rows, getters and setters that carry parameter `p`
+    (rows by member name AND own field; accessors by own field) -/
+def sites (p : Param) (enc dec : List Row) (getters : List (String × String))
+    (setters : List (String × List String)) : Nat × Nat × Nat × Nat :=
+  ((enc.filter (fun r => r.key == p.name && r.field == ownField p.name)).length,
+   (dec.filter (fun r => r.key == p.name && r.field == ownField p.name)).length,
+   (getters.filter (fun g => g.2 == ownField p.name)).length,
+   (setters.filter (fun s => s.2.contains (ownField p.name))).length)
+
+/-- every parameter has exactly one encoder site, one decoder site, one getter and one setter —
+    except that the listed `extra` setters may write a field in addition to its own setter
+    (jws `SetBase64` also maintains `crit`) — and no member name or field is used by a second row -/
+def oneSiteEach (ps : List Param) (enc dec : List Row) (getters : List (String × String))
+    (setters : List (String × List String)) (extra : List (String × String)) : Bool :=
+  ps.all (fun p =>
+    let n := sites p enc dec getters setters
+    n.1 == 1 && n.2.1 == 1 && n.2.2.1 == 1 &&
+      n.2.2.2 == 1 + (extra.filter (fun e => e.2 == ownField p.name)).length) &&
+  enc.all (fun r => (enc.filter (fun r' => r'.key == r.key || r'.field == r.field)).length == 1) &&
+  dec.all (fun r => (dec.filter (fun r' => r'.key == r.key || r'.field == r.field)).length == 1) &&
+  getters.length == ps.length
+
+/-- every setter of a registered parameter deletes exactly its own registered member name from
+    `Raw` (and nothing else), and no other setter exists -/
+def settersDeleteOwn (ps : List Param) (api : String → String × String)
+    (dels : List (String × List String)) : Bool :=
+  ps.all (fun p => dels.contains ((api p.name).2, [p.name])) && dels.length == ps.length
+
+/-- for the model: the plain setter of each row's field deletes exactly that row's member name
+    (`skip`: fields without a plain setter — jws nb64 is written by SetBase64 only) -/
+def plainSettersDelete (rows : List Row) (setters dels : List (String × List String)) (skip : List String) : Bool :=
+  rows.all (fun r => skip.contains r.field ||
+    match Fld.ofString r.field with
+    | some f => deletesOf dels (plainSetter setters f) == [r.key]
+    | none => false)
+
 end C11
